@@ -125,6 +125,16 @@ def lfo_pair_executions(a, b, every=1, offset=0):
             yield [init(2)] + il
 
 
+def family_pair_executions(a, b, every=1, offset=0):
+    """Two instances of different chip families (OPN2 / OPNA clocks): anything cached per process on first use (clock
+    dependent coefficients, tables) by one of them must not reach the other; all interleavings, so either plays first."""
+    ha = [create(a, 44100), {"e": "Fam", "v": 1}, on(60, 0), gen(512)]
+    hb = [create(b, 44100), on(64, 0), gen(512)]
+    for q, il in enumerate(interleavings([ha, hb])):
+        if q % every == offset % every:
+            yield [init(2)] + il
+
+
 CRITICAL_PAIRS = [(1, 8), (8, 1), (4, 4), (2, 2), (0, 5), (1, 1), (8, 8)]
 
 
@@ -138,6 +148,8 @@ def exhaustive_executions(quick, seed):
                 hs += list(pair_executions(a, b, 9 if not quick else 42, seed + a * 8 + b))
     for (a, b) in [(4, 4), (4, 5), (5, 4), (4, 2), (0, 4), (2, 2), (5, 5)]:
         hs += list(lfo_pair_executions(a, b, 1 if not quick else 4, seed))
+    for (a, b) in [(0, 0), (0, 2), (2, 0), (4, 5), (3, 6), (1, 1)]:
+        hs += list(family_pair_executions(a, b, 1 if not quick else 5, seed + a))
     trip = [(1, 8, 4), (8, 4, 1), (4, 1, 8), (0, 2, 5), (3, 6, 2), (2, 5, 0)]
     for (a, b, c) in trip:
         hs += list(triple_executions(a, b, c, 40 if not quick else 240, seed + a))
@@ -160,7 +172,8 @@ def random_solo(rng, length, emus=EMUS):
         elif r < 0.53: h.append({"e": "Off", "k": rng.choice([36, 48, 60, 64, 72, 84])})
         elif r < 0.60: h.append({"e": "Switch", "emu": rng.choice(emus)})
         elif r < 0.65: h.append({"e": "Chips", "n": rng.choice([1, 2, 3, 4])})
-        elif r < 0.71: h.append({"e": "Pcm", "v": rng.choice([0, 1, 1])})
+        elif r < 0.69: h.append({"e": "Pcm", "v": rng.choice([0, 1, 1])})
+        elif r < 0.71: h.append({"e": "Fam", "v": rng.choice([0, 1, 1])})
         elif r < 0.78: h.append({"e": "Lfo", "v": rng.choice([0, 1, 1])})
         elif r < 0.82: h.append({"e": "Reset"})
         elif r < 0.88: h.append({"e": "Load", "song": rng.randrange(12)})
